@@ -7,8 +7,8 @@
    of the listed known finding neg-2p127 (the literal -2^127, whose unary minus keeps the
    sign: pinned by the repository's own snapshot tests/snapshots/test_templates__vm@literals.txt.snap).
    [known_neg a] (a = 2^127) and [known_pow a b] (|a| <= 1 and b > 2^32-1) describe the other
-   listed inputs.  Integer/float and float/float cases are not modelled in Coq: they are decided
-   by the harness oracle only (tools/props/C08.py). *)
+   listed inputs.  Of the float leg only the integer/float comparison is modelled and proved here
+   (int_float_cmp_exact); float // and % are decided by the harness oracle only (tools/props/C08.py). *)
 From MJ Require Import Common.Base C08.Model C08.Spec C08.Proofs.
 
 (* + - * // % **: never a crash; an integer answer is the exact result of unbounded
@@ -80,6 +80,16 @@ Theorem int_cmp_exact : forall fa a fb b,
   in_domain fa a -> in_domain fb b -> model_compare fa a fb b = Ok (exact_cmp a b).
 Proof. exact int_cmp_exact_proof. Qed.
 
+(* integer/float comparison (<, ==, > in both orders) is exact for every finite float and every
+   integer form: the model of Ord::cmp / PartialEq::eq with as_f64 (lossless), cmp_f64_i128,
+   cmp_f64_u128 equals the comparison of the integer with the rational the float denotes.
+   Proved by integer reasoning about round-to-nearest-even ([rne_int] models `x as f64`); the
+   float's own decoding and the hardware comparison of two floats are modelled, not verified. *)
+Theorem int_float_cmp_exact : forall swap bits fi z m e,
+  in_domain fi z -> decode bits = FFin m e ->
+  model_compare_float as_f64_exact swap bits fi z = Some (Ok (swap_cmp swap (exact_cmp_rat m e z))).
+Proof. exact int_float_cmp_exact_proof. Qed.
+
 (* the run-time oracle's capped power is Z.pow where it answers, and beyond 2^256 where it does not *)
 Theorem pow_capped_spec : forall a b, 0 <= b ->
   match pow_capped a b with Some r => r = a ^ b | None => 2 ^ 256 < Z.abs (a ^ b) end.
@@ -108,6 +118,11 @@ Example rem_min_refuted_before_fix :
   model_case_before_fix (Bin Rem) FI128 (- 2 ^ 127) FI64 (-1) = Err E_InvalidOperation.
 Proof. vm_compute. reflexivity. Qed.
 
+Example int_float_eq_refuted_before_fix :
+  eq_float_int as_f64_exact_before_fix (decode 4890909195324358656) (VInt I64 (2 ^ 63 - 1)) = Some true /\
+  eq_float_int as_f64_exact (decode 4890909195324358656) (VInt I64 (2 ^ 63 - 1)) = Some false.
+Proof. vm_compute. split; reflexivity. Qed.
+
 (* the listed known findings are violations in the model as well (hence the exclusions above) *)
 Example neg_2p127_known_refuted :
   model_case Neg FLit (2 ^ 127) FLit 0 = Ok (VInt U128 (2 ^ 127)) /\
@@ -126,4 +141,5 @@ Print Assumptions euclid_law_characterises_spec.
 Print Assumptions rem_total.
 Print Assumptions literal_value.
 Print Assumptions int_cmp_exact.
+Print Assumptions int_float_cmp_exact.
 Print Assumptions pow_capped_spec.
